@@ -11,9 +11,9 @@ namespace Typstyle
 /-- T18.1: each syntax node is converted at most once per entry point, independent of how deeply
 it is nested: the number of node conversions is at most `4 · size`, for every tree, configuration
 and width. -/
-theorem C18_conversions_linear_in_size (e : Env) (root : Node) (d : Pretty.Doc) (calls : Nat)
-    (h : printDoc e root = .ok (d, calls)) : calls ≤ 4 * (prepare root).size :=
-  printDoc_linear e root d calls h
+theorem C18_conversions_linear_in_size (cfg : Config) (wd : String → Nat) (root : Node) (d : Pretty.Doc) (calls : Nat)
+    (h : printDoc cfg wd root = .ok (d, calls)) : calls ≤ 4 * (prepare root).size :=
+  printDoc_linear cfg wd root d calls h
 
 /-- The same for every sub-computation of the printer (range formatting, single converters):
 whatever is run from a fresh state of a tree with `limit` nodes ends with at most `4 · limit` entries. -/
